@@ -134,24 +134,66 @@ def record_and_judge(ctx, uni, label, aspects, devs, prop, n, strategies="iface,
 
 
 def note_known(ctx, names, devs):
+    """A mismatch explained by M(K).  It is a KNOWN-FINDING of this property only if the deviation is
+    listed for it; deviations listed for other properties (they concern aspects this property's
+    statement does not constrain differently) are only counted in the evidence."""
     for name in names.split("+"):
         f = devs.get(name)
-        key = "%s: %s" % (name, f["what"] if f else "(deviation not listed?)")
-        ctx.known_hits[key] = ctx.known_hits.get(key, 0) + 1
         if f is None:
             ctx.violations.append({"from": "attribution", "what": "mismatch attributed to unlisted deviation " + name})
+            continue
+        if f["property"] == ctx.prop or ctx.prop in f.get("also", []):
+            key = "%s: %s" % (name, f["what"])
+            ctx.known_hits[key] = ctx.known_hits.get(key, 0) + 1
+        else:
+            o = ctx.extra.setdefault("explained_by_findings_listed_for_other_properties", {})
+            o[name] = o.get(name, 0) + 1
 
 
 PLANS = {
     # property: (families quick, families thorough-extra, aspects judged)
     "C01": (["flat", "nest1", "nest2", "nest3", "inline1", "inline2", "spread", "dups", "args", "ops"], [], {"data", "opchoice"}),
-    "C06": (["fault0", "fault1"], ["fault2"], {"errors", "data"}),
+    "C06": (["fault0", "fault1", "faultnth"], ["fault2"], {"errors", "data"}),
     "C09": (["dirs"], [], {"data", "calls"}),
     "C10": (["defect"], [], {"errors_cover", "calls", "data", "opchoice"}),
 }
 
 
+REUSE_CFG = """SPECIFICATION RSpec
+CONSTANTS MaxCalls = {n}
+  KnownDev = {known}
+INVARIANTS FreshEquivalent Emit
+PROPERTIES ParsedUnchanged
+CHECK_DEADLOCK FALSE
+"""
+
+
+def run_c11(ctx):
+    devs = known_devs(FAMILY_PROPS)
+    aspects = {"data", "errors", "errors_cover", "calls", "printed", "opchoice"}
+    n = 3 if ctx.tier == "quick" else 4
+    res = vlib.run_tlc(ctx, "MCReuse", REUSE_CFG.format(n=n, known=tlaset(sorted(devs))), timeout=3000, xss="64m")
+    vlib.require_clean(res, "MCReuse")
+    uni = (res.mark("@@UNI") or [None])[0]
+    up = os.path.join(ctx.scratch, "uni.json")
+    vp = os.path.join(ctx.scratch, "sessions.json")
+    json.dump(uni, open(up, "w"))
+    json.dump(res.vecs, open(vp, "w"))
+    rep = vlib.run_harness_json(ctx, "exec", ["reuse", "-universe", up, "-vectors", vp], timeout=3000)
+    absorb(ctx, rep, "reuse-replay", aspects, devs, ctx.prop)
+    record_and_judge(ctx, uni, "reuse-record", aspects, devs, ctx.prop, 500 if ctx.tier == "quick" else 4000,
+                     universes=10 if ctx.tier == "quick" else 40, extra=["-calls", "4"])
+    ctx.exhaustive = True
+    ctx.rule = ("every session of spec/MCReuse.tla (a document with variables inside literal containers, out-of-order arguments, "
+                "directives on variables, fragments, several operations or injected defects, resolved %d times with every sequence of "
+                "(operation, variable map) choices) is replayed on ONE parsed Executable: each response must equal the one Sem prescribes "
+                "for a fresh parse and the printed form must not change; random documents resolved 4 times each are recorded and judged by "
+                "ExecJudge.tla. non-trivial = session whose calls are not all identical; distinct by (document, call sequence, strategy)" % n)
+
+
 def run(ctx):
+    if ctx.prop == "C11":
+        return run_c11(ctx)
     if ctx.prop in PLANS:
         quick, more, aspects = PLANS[ctx.prop]
         fams = quick + (more if ctx.tier == "thorough" else [])
